@@ -510,6 +510,131 @@ class ReadLammpsCentertype(Unit):
 
 
 # =====================================================================================================
+# a whole dump file of T frames with the same particle number (what read_additions presupposes: fixed frame length 9 + N)
+
+
+def dump_file_fixed(ctx, path, words8=("id", "type", "x", "y", "z", "order")):
+    """registers a symbolic dump file under `path`: T >= 1 frames of 9 + N lines each (N >= 1 the same in every frame), frame s
+    holding atom lines a < N `ID2(s,a) ATYPE2(s,a) COL2(s,a,2) ...` with ids a bijection onto 1..N per frame, ncols columns.
+    Line numbers the code computes are decoded as  pos = s (N + 9) + 9 + a  by polynomial identity (checked, not guessed)."""
+    from pyvc.state import cur
+    I, R = z3.IntSort(), z3.RealSort()
+    T, N, ncols = ctx.int("T"), ctx.int("N"), ctx.int("ncols")
+    ctx.assume(T >= 1)
+    ctx.assume(N >= 1)
+    ctx.assume(ncols >= 3)
+    nlines = ctx.int("nlines")
+    ctx.assume(sv.cmp("==", nlines, sv.mul(T, sv.add(N, 9))))
+    TS = z3.Function("TS2", I, I)
+    ID, IDINV, TYP = z3.Function("ID2", I, I, I), z3.Function("IDINV2", I, I, I), z3.Function("ATYPE2", I, I, I)
+    VAL = z3.Function("COL2", I, I, I, R)
+    Nz = N.t
+    ctx.array_fact("ID2", lambda s, a: z3.Implies(z3.And(a >= 0, a < Nz), z3.And(ID(s, a) >= 1, ID(s, a) <= Nz, IDINV(s, ID(s, a)) == a)))
+    ctx.array_fact("IDINV2", lambda s, r: z3.Implies(z3.And(r >= 1, r <= Nz), z3.And(IDINV(s, r) >= 0, IDINV(s, r) < Nz, ID(s, IDINV(s, r)) == r)))
+    ctx.state.inverses["ID2"] = lambda s, v: IDINV(s, v)
+
+    def col(s, a, c):
+        sz, az = sv.znum(s), sv.znum(a)
+        if sv.is_conc(c):
+            c = int(c)
+            return sv.SV(ID(sz, az)) if c == 0 else (sv.SV(TYP(sz, az)) if c == 1 else sv.SV(VAL(sz, az, z3.IntVal(c))))
+        return sv.ite(sv.cmp("==", c, 0), sv.to_real(sv.SV(ID(sz, az))), sv.ite(sv.cmp("==", c, 1), sv.to_real(sv.SV(TYP(sz, az))), sv.SV(VAL(sz, az, sv.znum(c)))))
+
+    def header_line(s, off):
+        if off == 0:
+            return LineVal(TokList.of(["ITEM:", "TIMESTEP"]))
+        if off == 1:
+            return LineVal(TokList.of([Tok("int", sv.SV(TS(sv.znum(s))))]))
+        if off == 2:
+            return LineVal(TokList.of(["ITEM:", "NUMBER", "OF", "ATOMS"]))
+        if off == 3:
+            return LineVal(TokList.of([Tok("int", N)]))
+        if off == 4:
+            return LineVal(TokList.of(["ITEM:", "BOX", "BOUNDS", "pp", "pp", "pp"]))
+        if 5 <= off <= 7:
+            return LineVal(TokList.of([Tok("float", sv.real(f"lo_{off-5}")), Tok("float", sv.real(f"hi_{off-5}"))]))
+        return LineVal(TokList.of(["ITEM:", "ATOMS"] + list(words8)))
+
+    def decode(pos):
+        """pos == s (N + 9) + 9 + a as polynomials in N -> (s, a); None when the term has no such form"""
+        pz = sv.znum(pos)
+        p0 = z3.simplify(z3.substitute(pz, (Nz, z3.IntVal(0))))
+        p1 = z3.simplify(z3.substitute(pz, (Nz, z3.IntVal(1))))
+        s_ = z3.simplify(p1 - p0)
+        a_ = z3.simplify(p0 - 9 * s_ - 9)
+        resid = z3.simplify(pz - (s_ * (Nz + 9) + 9 + a_), som=True)
+        if z3.is_int_value(resid) and resid.as_long() == 0:
+            return sv.wrap(s_), sv.wrap(a_)
+        return None
+
+    def line_fn(pos):
+        pos = A.simp(pos)
+        if sv.is_conc(pos):
+            if 0 <= int(pos) <= 8:
+                return header_line(0, int(pos))
+            raise sv.EngineError("dump model: concrete line number beyond the first header")
+        dec = decode(pos)
+        if dec is None:
+            raise sv.EngineError("dump model: line number is not of the form s (N + 9) + 9 + a")
+        s_, a_ = dec
+        # the line is an atom line of frame s only if 0 <= a < N and 0 <= s < T: anything else is a different kind of line
+        cur().require(sv.and_(sv.cmp(">=", a_, 0), sv.cmp("<", a_, N), sv.cmp(">=", s_, 0), sv.cmp("<", s_, T)), "line-is-an-atom-line-of-a-frame")
+
+        def tok(c):
+            if sv.is_conc(c) and int(c) in (0, 1):
+                return Tok("int", col(s_, a_, c))
+            return Tok("float", col(s_, a_, c))
+        return LineVal(TokList(ncols, tok))
+    ctx.state.files[path] = (0, line_fn, nlines)
+    return dict(T=T, N=N, ncols=ncols, nlines=nlines, ID=ID, IDINV=IDINV, TYP=TYP, VAL=VAL, col=col, TS=TS)
+
+
+class ReadAdditions(Unit):
+    """read_additions(dumpfile, ncol): for a dump of T frames with N atoms each (the fixed 9 + N frame length the function presupposes)
+       the result has shape (T, N) and result[s, id-1] = float(token `ncol` (zero-based) of the atom line of frame s that carries that id)."""
+    module = LR
+    qualname = "read_additions"
+    prop = "C19"
+    timeout = 30
+
+    def setup(self, ctx, case):
+        path = "dump.atom"
+        sym = dump_file_fixed(ctx, path)
+        ncol = ctx.int("ncol")
+        ctx.assume(sv.and_(sv.cmp(">=", ncol, 0), sv.cmp("<", ncol, sym["ncols"])))       # the column exists
+        sym.update(ncol=ncol, s=ctx.int("s"), r=ctx.int("r"))
+        return [path, ncol], {}, sym
+
+    def clause_names(self, case):
+        return ["shape=(frames,particles)", "value-of-the-column-by-frame-and-atom-id"]
+
+    def ensures(self, ctx, case, inp, out):
+        res = out.value
+        T, N, s, r = inp["T"], inp["N"], inp["s"], inp["r"]
+        ok = isinstance(res, A.Arr) and res.ndim == 2 and res.dtype == "float"
+        yield "shape=(frames,particles)", sv.and_(bool(ok), sv.cmp("==", res.shape[0], T) if ok else False, sv.cmp("==", res.shape[1], N) if ok else False), \
+            {"assume": [frames_lemma(inp["nlines"], T, N)[1]]}
+        if not ok:
+            yield "value-of-the-column-by-frame-and-atom-id", False
+            return
+        inr = sv.and_(sv.cmp(">=", s, 0), sv.cmp("<", s, T), sv.cmp(">=", r, 0), sv.cmp("<", r, N))
+        a = sv.SV(inp["IDINV"](sv.znum(s), sv.znum(sv.add(r, 1))))           # the atom line of frame s carrying id r+1
+        yield "value-of-the-column-by-frame-and-atom-id", sv.implies(inr, sv.cmp("==", res.get((s, r)), inp["col"](s, a, inp["ncol"]))), \
+            {"assume": [frames_lemma(inp["nlines"], T, N)[1]]}
+
+    def replay(self, case, clause, model, seed):
+        return _replay_dump_readers("additions", seed)
+
+
+def frames_lemma(nlines, T, N):
+    """(hypothesis-free statement, instance): int(nlines / (N + 9)) == T when nlines == T (N + 9), N >= 1, T >= 0 — the frame count
+    the code computes by a float division; proved once on fresh variables (extra_checks), used as an instance"""
+    q = sv.trunc(sv.div(nlines, sv.add(N, 9)))
+    inst = sv.implies(sv.and_(sv.cmp("==", nlines, sv.mul(T, sv.add(N, 9))), sv.cmp(">=", N, 1), sv.cmp(">=", T, 0)), sv.cmp("==", q, T))
+    return inst, inst
+
+
+# =====================================================================================================
 # HOOMD frames (duck-typed): f[s].configuration.{step, dimensions, box}, f[s].particles.{N, typeid, position}
 
 
@@ -786,11 +911,163 @@ def _replay_gsd(with_dcd, seed):
     return {"ran": True, "failed": False, "searched": 60}
 
 
+def _make_dump(rng, d, style, T, same_n=True, extra=2, nmax=7):
+    """text of a LAMMPS dump with T frames (orthogonal boxes with arbitrary origins, shuffled atom lines, `extra` additional columns)
+    and the per-frame truth"""
+    frames, text = [], ""
+    N0 = rng.randint(1, nmax)
+    for s in range(T):
+        N = N0 if same_n else rng.randint(1, nmax)
+        lo = [rng.uniform(-5, 5) for _ in range(3)]
+        L = [rng.uniform(2, 6) for _ in range(3)]
+        ts = rng.randint(0, 10 ** 6)
+        ids = list(range(1, N + 1))
+        rng.shuffle(ids)
+        rows = {}
+        text += f"ITEM: TIMESTEP\n{ts}\nITEM: NUMBER OF ATOMS\n{N}\nITEM: BOX BOUNDS pp pp pp\n"
+        for k in range(3):
+            text += f"{lo[k]!r} {lo[k] + L[k]!r}\n"
+        text += "ITEM: ATOMS id type " + " ".join(STYLE_WORDS[style][:d]) + "".join(f" c{e}" for e in range(extra)) + "\n"
+        for i in ids:
+            typ = rng.randint(1, 5)
+            if style == "xs":
+                raw = [rng.uniform(0, 1) for _ in range(d)]
+                cart = [lo[k] + raw[k] * L[k] for k in range(d)]
+            else:
+                base = [lo[k] + rng.uniform(0, 1) * L[k] for k in range(d)]
+                sh = [rng.choice([-1, 0, 0, 1]) for _ in range(d)]
+                raw = [base[k] + sh[k] * L[k] * rng.uniform(0.01, 0.99) if sh[k] else base[k] for k in range(d)]
+                cart = list(raw)
+                if style == "x":
+                    cart = [r + L[k] if r < lo[k] else (r - L[k] if r > lo[k] + L[k] else r) for k, r in enumerate(raw)]
+            ext = [rng.uniform(-3, 3) for _ in range(extra)]
+            toks = [str(i), str(typ)] + [repr(x) for x in raw] + [repr(x) for x in ext]
+            rows[i] = dict(type=typ, cart=cart, toks=toks)
+            text += " ".join(toks) + "\n"
+        frames.append(dict(ts=ts, N=N, lo=lo[:d], L=L[:d], rows=rows))
+    return text, frames
+
+
+def _cell_bad(np, g, fr, d):
+    lo, L = np.array(fr["lo"]), np.array(fr["L"])
+    if not np.allclose(g.boxbounds, np.column_stack((lo, lo + L)), rtol=1e-12, atol=1e-12):
+        return f"boxbounds {np.asarray(g.boxbounds).tolist()}"
+    if not np.allclose(g.boxlength, (lo + L) - lo, rtol=1e-12, atol=1e-12) or not np.allclose(g.hmatrix, np.diag((lo + L) - lo), rtol=1e-12, atol=1e-12):
+        return "boxlength / hmatrix"
+    if g.realbounds is not None:
+        return "realbounds is not None"
+    return None
+
+
 def _replay_dump_readers(which, seed):
-    return {"ran": False, "failed": False, "error": "todo"}
+    """real auxiliary readers (and their wrappers) on written dump files, compared with an independent reading of the text"""
+    import importlib
+    import io
+    import os
+    import random
+    import shutil
+    import tempfile
+
+    import numpy as np
+    R = importlib.import_module(LR)
+    rng = random.Random(seed)
+    tmp = tempfile.mkdtemp(prefix="pyvc-replay-")
+    try:
+        for trial in range(60):
+            d = rng.choice([2, 3])
+            T = rng.randint(1, 3)
+            style = rng.choice(["x", "xs", "xu"])
+            extra = rng.randint(1, 3)
+            text, frames = _make_dump(rng, d, style, T, same_n=(which == "additions" or trial % 2 == 0), extra=extra)
+            path = os.path.join(tmp, f"t{trial}.dump")
+            with open(path, "w") as fh:
+                fh.write(text)
+            ncols = 2 + d + extra
+            inputs = {"reader": which, "ndim": d, "style": style, "text": text}
+            try:
+                if which == "vector":
+                    cols = [rng.randint(1, ncols) for _ in range(rng.randint(1, 3))]
+                    inputs["columnsids"] = cols
+                    if trial % 2:
+                        snaps = R.read_lammps_vector_wrapper(path, d, cols)
+                        got, n_got = list(snaps.snapshots), snaps.nsnapshots
+                    else:
+                        with open(path) as fh:
+                            got = [R.read_lammps_vector(fh, d, cols) for _ in range(T)]
+                            tail = R.read_lammps_vector(fh, d, cols)
+                        n_got = T if tail is None else T + 1
+                    if n_got != T or len(got) != T:
+                        return {"ran": True, "failed": True, "inputs": inputs, "detail": f"{T} frames in the file, {n_got} reported / {len(got)} returned", "searched": trial + 1}
+                    for s, (g, fr) in enumerate(zip(got, frames)):
+                        bad = None
+                        if g is None or g.timestep != fr["ts"] or g.nparticle != fr["N"]:
+                            bad = "timestep / nparticle"
+                        else:
+                            want = np.array([[float(fr["rows"][i]["toks"][c - 1]) for c in cols] for i in range(1, fr["N"] + 1)])
+                            wt = np.array([fr["rows"][i]["type"] for i in range(1, fr["N"] + 1)])
+                            if np.asarray(g.positions).shape != want.shape or not np.array_equal(np.asarray(g.positions), want):
+                                bad = f"columns {cols} by id: got {np.asarray(g.positions).tolist()}, expected {want.tolist()}"
+                            elif not np.array_equal(np.asarray(g.particle_type), wt):
+                                bad = "particle_type by id"
+                            else:
+                                bad = _cell_bad(np, g, fr, d)
+                        if bad:
+                            return {"ran": True, "failed": True, "inputs": inputs, "detail": f"frame {s}: {bad}", "searched": trial + 1}
+                elif which == "center":
+                    keys = rng.sample([1, 2, 3, 4, 5], rng.randint(1, 3))
+                    mol = {k: rng.randint(1, 9) for k in keys}
+                    inputs["moltypes"] = mol
+                    if trial % 2:
+                        snaps = R.read_lammps_centertype_wrapper(path, d, mol)
+                        got, n_got = list(snaps.snapshots), snaps.nsnapshots
+                    else:
+                        with open(path) as fh:
+                            got = [R.read_lammps_centertype(fh, d, mol) for _ in range(T)]
+                            tail = R.read_lammps_centertype(fh, d, mol)
+                        n_got = T if tail is None else T + 1
+                    if n_got != T or len(got) != T:
+                        return {"ran": True, "failed": True, "inputs": inputs, "detail": f"{T} frames in the file, {n_got} reported / {len(got)} returned", "searched": trial + 1}
+                    for s, (g, fr) in enumerate(zip(got, frames)):
+                        sel = [i for i in range(1, fr["N"] + 1) if fr["rows"][i]["type"] in mol]
+                        bad = None
+                        if g is None or g.timestep != fr["ts"]:
+                            bad = "timestep"
+                        elif g.nparticle != len(sel) or np.asarray(g.particle_type).shape != (len(sel),) or np.asarray(g.positions).shape != (len(sel), d):
+                            bad = f"{g.nparticle} atoms returned, {len(sel)} atoms have a type in {sorted(mol)}"
+                        elif [int(x) for x in np.asarray(g.particle_type)] != [mol[fr["rows"][i]["type"]] for i in sel]:
+                            bad = f"types {np.asarray(g.particle_type).tolist()}, expected {[mol[fr['rows'][i]['type']] for i in sel]} (ids {sel})"
+                        elif len(sel) and not np.allclose(np.asarray(g.positions), np.array([fr["rows"][i]["cart"] for i in sel]), rtol=1e-12, atol=1e-12):
+                            bad = f"positions {np.asarray(g.positions).tolist()}, expected {[fr['rows'][i]['cart'] for i in sel]} (ids {sel})"
+                        else:
+                            bad = _cell_bad(np, g, fr, d)
+                        if bad:
+                            return {"ran": True, "failed": True, "inputs": inputs, "detail": f"frame {s}: {bad}", "searched": trial + 1}
+                else:
+                    ncol = rng.randint(0, ncols - 1)
+                    inputs["ncol"] = ncol
+                    got = R.read_additions(path, ncol)
+                    N = frames[0]["N"]
+                    want = np.array([[float(fr["rows"][i]["toks"][ncol]) for i in range(1, N + 1)] for fr in frames])
+                    if np.asarray(got).shape != want.shape or not np.array_equal(np.asarray(got), want):
+                        return {"ran": True, "failed": True, "inputs": inputs, "detail": f"got {np.asarray(got).tolist()}, expected {want.tolist()}", "searched": trial + 1}
+            except Exception as e:
+                return {"ran": True, "failed": True, "inputs": inputs, "detail": f"raises {type(e).__name__}: {e}", "searched": trial + 1}
+        return {"ran": True, "failed": False, "searched": 60}
+    finally:
+        shutil.rmtree(tmp, ignore_errors=True)
 
 
-UNITS = [WriteDumpHeader(), WriteDataHeader(), ReadLammpsVector(), ReadLammpsCentertype(), ReadGsd(), ReadGsdDcd()]
+UNITS = [WriteDumpHeader(), WriteDataHeader(), ReadLammpsVector(), ReadLammpsCentertype(), ReadGsd(), ReadGsdDcd(), ReadAdditions()]
+
+
+def lemmas():
+    nl, Tq, Nq = sv.integer("nl_"), sv.integer("T_"), sv.integer("N_")
+    return [("lemma:int(nlines/(N+9))=T-for-a-file-of-T-frames-of-9+N-lines", frames_lemma(nl, Tq, Nq)[0])]
+
+
+def extra_checks(tier, seed, repo):
+    from pyvc.vc import prove_lemmas
+    return {"obligations": prove_lemmas("C19", lemmas())}
 
 
 MANIFEST = {
